@@ -1,6 +1,8 @@
 package main
 
 import (
+	"strconv"
+	"os"
 	"sync/atomic"
 	"fmt"
 	"runtime"
@@ -42,6 +44,13 @@ func watchdog(sec int, f func() string) string {
 	}
 	if sec > 40 {
 		sec = 40
+	}
+	// confirmation runs (a reported hang is re-run alone with a long period before it counts,
+	// so that a slow machine is not mistaken for a deadlock)
+	if v := os.Getenv("VERIF_WATCHDOG_SEC"); v != "" {
+		if n, err := strconv.Atoi(v); err == nil && n > 0 {
+			sec = n
+		}
 	}
 	ch := make(chan string, 1)
 	go func() {
